@@ -11,7 +11,7 @@ CLAIM = dict(
           "empty optional fed into any pipeline of lifted stages (views on maybe operands, function application, eval) yields an empty "
           "optional, no later stage is applied and a stage is only ever applied to a present value (never dereferenced) — by induction "
           "over the pipeline. Refuted with witnesses: transpose (duplicate / out-of-range / too few axes), pad (negative width), repeat / "
-          "expand_dims / swapaxes (out-of-range axis). Tied to the C++ by calling 24 view-level operations and 8 pipelines with the full "
+          "expand_dims / swapaxes (out-of-range axis). Tied to the C++ by calling 24 view-level operations and 14 pipelines (a possibly-empty stage result as first, second or both operands of further views and of eval) with the full "
           "small box of valid AND invalid arguments, one forked child per case in the NDEBUG and the sanitizer build, comparing only "
           "has-value / Nothing / trap against NumPy's acceptance."),
     ref="5.15", technique="Coq proof (accept iff, option-monad induction) + differential runs over malformed argument boxes",
@@ -85,6 +85,15 @@ def gen_cases(rng, tier):
             for dst in ([n], [-1], [n + 1], [1, n], [0, -1], list(s)):
                 for t in ([1], list(s), [4, 4], [n], [n, 1]):
                     add("pipeline", "pipe %s I:%d %s %s" % (A(s), k, L(dst), A(t)))
+    # two stage results as both operands: every (valid / invalid) x (valid / invalid) combination, shapes that do / do not fit the outer view
+    for s in some_shapes:
+        n = 1
+        for e in s: n *= e
+        dsts = [[1, n], [n, 1], [n], [2, n], [n + 1, 1], [0, -1], [-1, n], [1, -1]]
+        for k in range(6):
+            for da in dsts:
+                for db in dsts:
+                    add("pipeline2", "pipe2 %s I:%d %s %s" % (A(s), k, L(da), L(db)))
     # de-duplicate keeping order
     seen = set(); res = []
     for x in out:
@@ -114,5 +123,5 @@ def distribution(streams):
 def classify(line, impl, spec, model):
     """operation x what happened instead of the expected status"""
     t = line.split(" ")
-    op = t[0] if t[0] != "pipe" else "pipe" + t[2][2:]
+    op = t[0] if t[0] not in ("pipe", "pipe2") else t[0] + "k" + t[2][2:]
     return "%s:%s-instead-of-%s" % (op, _status(impl), _status(spec))
